@@ -189,9 +189,9 @@ theorem u64_small {n : Nat} (h : n < 2^63) : u64 (n : Int) = n := by
 
 /-- Everything the scan decides, on the sorted list. -/
 theorem median_spec (rs : List Report) (hne : rs ≠ [])
-    (hparse : ∀ r ∈ rs, (parseHex r.value).isSome = true) (htot : psum rs < 2^63) :
+    (hparse : ∀ r ∈ rs, (parseHex (strip0x r.value)).isSome = true) (htot : psum rs < 2^63) :
     ∃ pre r post, sortByVal rs = pre ++ r :: post ∧
-      weightedMedian rs = some { value := r.value, reporter := r.reporter, power := psum rs,
+      weightedMedian rs = some { value := strip0x r.value, reporter := r.reporter, power := psum rs,
                                   index := pre.length, microHeight := r.block,
                                   reporters := (sortByVal rs).map toAggReporter } ∧
       (pre = [] ∨ 2 * psum pre < psum rs) ∧ 2 * (psum pre + r.power) ≥ psum rs := by
@@ -199,7 +199,7 @@ theorem median_spec (rs : List Report) (hne : rs ≠ [])
   have hsmS : small (sortByVal rs) := small_of_perm hperm (small_of_total htot)
   have htotal : sumI (sortByVal rs) = (psum rs : Int) := by
     rw [sumI_eq_psum hsmS, psum_perm hperm]
-  have hall : rs.all (fun r => (parseHex r.value).isSome) = true := by
+  have hall : rs.all (fun r => (parseHex (strip0x r.value)).isSome) = true := by
     simpa [List.all_eq_true] using hparse
   cases hp : pick (sumI (sortByVal rs)) 0 0 (sortByVal rs) with
   | none =>
